@@ -221,8 +221,9 @@ Definition create (by_struct : bool) (names : list name) (data : list (list val)
 (* createDataFrame over rows that carry their OWN field names -- pysparkling Row objects
    ([is_row] = true) or collections.namedtuple instances -- as a local list or as an RDD.
    * schema = list/tuple of names (or None = []): _infer_schema takes the names from the rows
-     (row.__fields__ / row._fields, the given names are NOT used and NOT padded), the rename loop then
-     overwrites the first len(names) of them in .fields and in .names;
+     (row.__fields__ / row._fields, the given names are NOT used and NOT padded), the rows become
+     plain tuples, and the rename loop then overwrites the first len(names) names in .fields and in
+     .names -- positionally, whatever the rows' own names were;
    * schema = StructType (or DDL string): a namedtuple is treated as a plain tuple; a Row is verified
      by looking every struct field up BY NAME (no length check), and StructType.toInternal
      (_match_fields_by_name) rebuilds it by name in schema order whenever the row's own names are
@@ -269,9 +270,10 @@ Definition create_rows (is_row by_struct : bool) (own names : list name) (data :
         then
           do fnames <- rename_loop names 0 own;
           do nnames <- rename_loop names 0 own;
-          (* the renamed struct converts every row: a Row (not a namedtuple) is again matched by name *)
-          do rs <- mapM (fun d => do vs <- (if is_row then match_by_name own fnames d else Ok d);
-                                  Ok (fnames, vs)) data;
+          (* every row is first turned into a plain tuple in the order of the inferred struct's own names
+             (= the rows' own order here) and only then is the struct renamed: the new names replace the
+             old ones position by position, for Rows as for namedtuples and tuples *)
+          do rs <- mapM (fun d => Ok (fnames, d)) data;
           Ok (mkPre (map PNew fnames) nnames rs true true)
         else Err "ValueError"
     end.
